@@ -96,9 +96,12 @@ def check_polygon(case, ctx, G):
             raise Fail("-(-polygon): normal differs from the original", {"n": n, "again": n2}, facts)
         if not cyc_equal(got2, got, 1e-12):
             raise Fail("-(-polygon): vertex cycle differs from the original", {"got": got2, "original": got}, facts)
-        ewn = step("eq_with_normal", lambda: nn2.eq_with_normal(o))
-        if ewn is not True:
-            ctx.note("eq_with_normal(-(-p), p) False although attributes match")
+        # normal and cycle of -(-p) equal those of p (checked attribute-wise above), so the public normal-aware
+        # comparison must agree; and it must tell p from -p, whose normal is reversed
+        if step("eq_with_normal", lambda: nn2.eq_with_normal(o)) is not True or step("eq_with_normal", lambda: o.eq_with_normal(nn2)) is not True:
+            raise Fail("eq_with_normal(-(-p), p) is not True although normal and vertex cycle match", {"n": n}, facts)
+        if step("eq_with_normal", lambda: o.eq_with_normal(neg)) is not False or step("eq_with_normal", lambda: neg.eq_with_normal(o)) is not False:
+            raise Fail("eq_with_normal(p, -p) is not False although the normal is reversed", {"n": n, "neg": nn}, facts)
 
 
 def check_polyhedron_obj(o, K, what, facts, tol=1e-12):
